@@ -123,6 +123,8 @@ class Core:
                 return U.con("VTuple", v.t)
             if k == "nodelist":
                 return U.con("VNodeList", v.t)
+        if type(v).__name__ == "Rec":  # object under construction / updated in place: its current field values
+            return self.rec_term(v)
         if isinstance(v, Tup):
             return U.con("VTuple", self.seq_of_terms([self.box(x) for x in v.items]))
         if isinstance(v, It):
@@ -178,6 +180,8 @@ class Core:
                 kc = self.known_con(t)
                 acc = {"VList": "items", "VNodeList": "nodes", "VTuple": "titems", "VGen": "gseq"}.get(kc)
                 if acc:
+                    if z3.is_app(t) and t.decl().kind() == z3.Z3_OP_DT_CONSTRUCTOR and t.decl().name() == kc and t.num_args() >= 1:
+                        return t.arg(0)  # items(VList(x)) is x
                     return U.acc(acc, t)
                 return z3.If(U.is_("VList", t), U.acc("items", t), z3.If(U.is_("VNodeList", t), U.acc("nodes", t), z3.If(U.is_("VTuple", t), U.acc("titems", t), U.acc("gseq", t))))
         if isinstance(v, Tup):
@@ -229,6 +233,8 @@ class Core:
     def truthy(self, v):
         """Python truthiness as a Bool term (objects without __bool__/__len__ are true)."""
         U = self.U
+        if type(v).__name__ == "Mt":  # a match object is always true, None is false
+            return v.r >= 0
         if isinstance(v, T):
             k = v.kind
             if k == "bool":
